@@ -18,6 +18,7 @@ LIB_SIGS = {
     'rvs': ['size'], 'percentile': ['a', 'q'], 'quantile': ['a', 'q'], 'nanpercentile': ['a', 'q'], 'ppf': ['q'], 'cdf': ['x'], 'sf': ['x'],
     'comb': ['N', 'k'], 'combinations': ['iterable', 'r'], 'date_range': ['start', 'end'], 'isin': ['values'], 'Timestamp': ['ts_input'],
     'deepcopy': ['x'], 'groupby': ['by'], 'insert': ['loc', 'column', 'value'], 'std': ['a'], 'var': ['a'],
+    'OLS': ['endog', 'exog'], 'pivot_table': ['values', 'index', 'columns'], 'linregress': ['x', 'y'],
     'between': ['left', 'right'], 'diff': ['a'], 'sqrt': ['x'], 'log10': ['x'], 'floor': ['x'], 'heappush': ['heap', 'item'], 'heappushpop': ['heap', 'item'],
     'nlargest': ['n', 'iterable'], 'round': ['number', 'ndigits'], 'pearsonr': ['x', 'y'], 'symmetric_difference': ['other'], 'isdisjoint': ['other'],
     'issubset': ['other'], 'issuperset': ['other'], 'sort_values': ['by'], 'corrcoef': ['x', 'y'],
@@ -107,6 +108,18 @@ class Canon:
     if not isinstance(e, ast.AST):
       return e
     e = dataflow._map_children(e, self._t)
+    if isinstance(e, ast.Call) and any(k.arg is None for k in e.keywords):
+      # f(**dict(k=v)) / f(**{'k': v}) after a local naming the keyword table was expanded
+      kws = []
+      for k in e.keywords:
+        v = k.value
+        if k.arg is None and isinstance(v, ast.Call) and isinstance(v.func, ast.Name) and v.func.id == 'dict' and not v.args and all(kk.arg is not None for kk in v.keywords):
+          kws += list(v.keywords)
+        elif k.arg is None and isinstance(v, ast.Dict) and v.keys and all(isinstance(x, ast.Constant) and isinstance(x.value, str) and x.value.isidentifier() for x in v.keys):
+          kws += [ast.keyword(arg=kk.value, value=vv) for kk, vv in zip(v.keys, v.values)]
+        else:
+          kws.append(k)
+      e.keywords = kws
     if isinstance(e, ast.Call):
       fn = e.func
       name = fn.attr if isinstance(fn, ast.Attribute) else fn.id if isinstance(fn, ast.Name) else None
@@ -150,6 +163,20 @@ def canonicalise_repo(repo):
         node.args = flat
         for a in flat:
           a._parent = node
+        n += 1
+      # f(**dict(k=v)) is f(k=v)
+      if any(k.arg is None and isinstance(k.value, ast.Call) and isinstance(k.value.func, ast.Name) and k.value.func.id == 'dict' and not k.value.args
+             and all(kk.arg is not None for kk in k.value.keywords) for k in node.keywords):
+        kws = []
+        for k in node.keywords:
+          if k.arg is None and isinstance(k.value, ast.Call) and isinstance(k.value.func, ast.Name) and k.value.func.id == 'dict' and not k.value.args \
+              and all(kk.arg is not None for kk in k.value.keywords):
+            for kk in k.value.keywords:
+              kk._parent = node
+              kws.append(kk)
+          else:
+            kws.append(k)
+        node.keywords = kws
         n += 1
       if any(k.arg is None and isinstance(k.value, ast.Dict) and k.value.keys and all(isinstance(x, ast.Constant) and isinstance(x.value, str) and x.value.isidentifier()
                                                                                      for x in k.value.keys) for k in node.keywords):
